@@ -5,7 +5,7 @@ import warnings
 import numpy as np
 import torch
 
-from qv import dispatchmon, fp, programs
+from qv import gen, dispatchmon, fp, programs
 
 META = dict(
     level="exploration",
@@ -15,7 +15,10 @@ META = dict(
     min={"judged_steps": 5000, "steps_with_quantized_result": 500, "compared:move": 500, "compared:rescale": 100,
          "compared:requant": 50, "compared:contraction": 200, "compared:pass": 300, "documented_refusals": 10},
     anchors=["tensor/qtensor.py:QTensor.__torch_function__", "tensor/qbytes.py:QBytesTensor.__torch_dispatch__",
-             "tensor/qbits/qbits.py:QBitsTensor.__torch_dispatch__", "tensor/qtensor.py:qfallback"],
+             "tensor/qbits/qbits.py:QBitsTensor.__torch_dispatch__", "tensor/qtensor.py:qfallback",
+             "tensor/qtensor_func.py:QTensorLinear.forward", "tensor/qtensor_func.py:linear",
+             "tensor/qbytes_ops.py:mm", "tensor/qbytes_ops.py:bmm", "tensor/qbytes_ops.py:where",
+             "tensor/qbytes_ops.py:copy_", "tensor/qbytes_ops.py:cat", "tensor/qbytes_ops.py:_softmax"],
     rule="case = one op program (depth 1..8) from a typed grammar over an operand pool mixing per-tensor qint8/qfloat8 "
          "activations (equal and different scales), per-axis qint8/qfloat8 weights (axis 0/-1), packed qint4/qint2 "
          "(with/without groups), plain tensors, Python scalars and 0-dim tensors, ranks 1-4, three dtypes; plus one "
@@ -39,11 +42,9 @@ def crash_class(a, w, kind):
     """Known native-crash / garbage classes (probed separately in C07)."""
     try:
         K = a.shape[-1]
-        if a.dtype == torch.bfloat16 and not hasattr(a, "qtype") and getattr(getattr(w, "qtype", None), "name", "") == "qint8" \
-                and K % 4 == 0 and K % 16 != 0:
-            return True
-        if K == 1 and getattr(getattr(a, "qtype", None), "name", "") == "qint8" and \
-                getattr(getattr(w, "qtype", None), "name", "") == "qint8":
+        wq = getattr(getattr(w, "qtype", None), "name", "")
+        # anything that is not an 8-bit quantized activation reaches the kernel as a (dequantized) bfloat16 tensor
+        if type(a).__name__ != "QBytesTensor" and gen.int8pack_crash_class(a.dtype, wq, K, quantized_activations=False):
             return True
     except Exception:
         pass
@@ -163,6 +164,13 @@ def run(ctx):
     n_prog = (2400 if ctx.tier == "quick" else 60_000) // ctx.nshards
     mon = dispatchmon.Monitor(ctx, judge_c05=True, judge_c06="taint")
     import torch.nn.functional as F
+
+    # quanto registers its function table lazily, keyed by the function objects it finds in torch.nn.functional at that
+    # moment: import it before the guard below replaces F.linear, or the guard itself would become the key and the
+    # quantized linear path would never be taken
+    import optimum.quanto.tensor.qtensor_func  # noqa: F401
+    import optimum.quanto.tensor.qbytes_ops  # noqa: F401
+    import optimum.quanto.tensor.qbits.qbits_ops  # noqa: F401
 
     real_linear = F.linear
 
